@@ -1310,6 +1310,13 @@ func modeC16r(e *Env) {
 		gp := smallGP()
 		l1 := GenLog(e.R, c1, gp, nil)
 		l2 := GenLog(e.R, c2, gp, nil)
+		if i%4 == 3 {
+			// whatever the seed: both histories rotate (a second format description arrives within one stream), under CRC32 and
+			// without it, with statements after the rotation
+			c1.Checksum, c2.Checksum = i%8 == 3, i%8 == 3
+			l1 = logFromAbstract(e.R, c1, gp, []interface{}{"txxid", "rotate", "ddl", "txcommit", "rotate", "stmtdml"})
+			l2 = logFromAbstract(e.R, c2, gp, []interface{}{"ddl", "rotate", "txxid", "ddl", "rotate", "txcommit"})
+		}
 		if i%3 == 0 {
 			for fi, f := range l2.Files {
 				f.Name = "other-bin." + itoa(100+fi)
